@@ -6,7 +6,7 @@ CONSTANTS
   MaxDepth = 4
   MaxClock = 1
   Limit <- Limit_C04
-  Ops = {"create", "createfault", "attr", "link", "delete"}
+  Ops = {"create", "mtagauto", "createfault", "attr", "link", "delete"}
   Faults = {"DuplicateName", "BadName", "NoneType", "WrongKind", "ForeignBlock", "NotMember", "Required", "NotFound"}
   Script <- NoScript
 VIEW View
